@@ -297,16 +297,16 @@ func c13RawInputs(rng *rand.Rand, n int) []hostileInput {
 			"attr": "|1\r\n+k\r\n+v\r\n+x\r\n", "null-array": "*-1\r\n", "null-blob": "$-1\r\n", "streamed-blob": "$?\r\n;1\r\na\r\n;0\r\n", "streamed-array": "*?\r\n+x\r\n.\r\n", "nested-push": "*1\r\n>1\r\n+x\r\n"}
 		for name, v := range values {
 			shapes := map[string]string{
-				"set-member":           "~1\r\n" + v,
-				"set-member-twice":     "~2\r\n" + v + v,
-				"streamed-set-member":  "~?\r\n" + v + ".\r\n",
-				"map-key":              "%1\r\n" + v + "+v\r\n",
-				"map-key-twice":        "%2\r\n" + v + "+v\r\n" + v + "+w\r\n",
-				"map-value":            "%1\r\n+k\r\n" + v,
-				"streamed-map-key":     "%?\r\n" + v + "+v\r\n.\r\n",
-				"attribute-key":        "|1\r\n" + v + "+v\r\n+x\r\n",
-				"streamed-attribute":   "|?\r\n" + v + "+v\r\n.\r\n+x\r\n",
-				"push-element":         ">2\r\n+pubsub\r\n" + v,
+				"set-member":          "~1\r\n" + v,
+				"set-member-twice":    "~2\r\n" + v + v,
+				"streamed-set-member": "~?\r\n" + v + ".\r\n",
+				"map-key":             "%1\r\n" + v + "+v\r\n",
+				"map-key-twice":       "%2\r\n" + v + "+v\r\n" + v + "+w\r\n",
+				"map-value":           "%1\r\n+k\r\n" + v,
+				"streamed-map-key":    "%?\r\n" + v + "+v\r\n.\r\n",
+				"attribute-key":       "|1\r\n" + v + "+v\r\n+x\r\n",
+				"streamed-attribute":  "|?\r\n" + v + "+v\r\n.\r\n+x\r\n",
+				"push-element":        ">2\r\n+pubsub\r\n" + v,
 			}
 			for shape, frame := range shapes {
 				add("nested-"+shape+"/"+name, "*2\r\n$4\r\nECHO\r\n"+frame)
@@ -773,7 +773,7 @@ func stallSummary(dump string) string {
 }
 
 func checkC13(r *verdict.Run) {
-	r.Rule = "each hostile input (raw byte string, generated command, random MULTI..EXEC sequence, and every command token of the SUT in four minimal argument shapes queued alone inside MULTI..EXEC) is sent on its own connection; plus RESTORE payloads crafted by a client that knows the format (valid checksum; every type byte x empty / one-element / wrong-type / truncated serializations x exact, short and absurd declared lengths), each followed by the read, random-pick, pop and write commands of every type on the restored key; plus well-formed commands that arrive in two segments or need several reads as the first input of a connection; plus connection churn (24 goroutines connect, send a fragment or nothing and close or reset, against one emulator, while a steady client sends PING) to a live emulator after a fixed key setup; " +
+	r.Rule = "each hostile input (raw byte string, generated command, random MULTI..EXEC sequence, and every command token of the SUT in four minimal argument shapes queued alone inside MULTI..EXEC) is sent on its own connection; plus RESTORE payloads crafted by a client that knows the format (valid checksum; every type byte x empty / one-element / wrong-type / truncated serializations x exact, short and absurd declared lengths), each followed by the read, random-pick, pop and write commands of every type on the restored key; plus well-formed commands that arrive in two segments or need several reads as the first input of a connection; plus clients parked in every blocking command while others list them repeatedly (CLIENT LIST / CLIENT INFO / CLIENT LIST ID), then unblocked: everybody is answered; plus connection churn (24 goroutines connect, send a fragment or nothing and close or reset, against one emulator, while a steady client sends PING) to a live emulator after a fixed key setup; " +
 		"monitors: process exit status, canary SET/GET on another connection (3 s watchdog), strict framing of replies, exactly one reply per well-formed command (sentinel ECHO). " +
 		"distinct = (input kind, command or mutation label, outcome class)"
 	// discover the command list from the SUT
@@ -814,6 +814,7 @@ func checkC13(r *verdict.Run) {
 	}
 	wg.Wait()
 	c13Churn(r, tierPick(r, 4, 12))
+	c13InspectBlocked(r)
 	r.Assume("the canary's 3 s watchdog and the 4 s reply watchdog are generous; the child's address space is limited to 12 GiB so that a client-controlled allocation shows up as a crash of the child instead of exhausting the machine enough that a loaded machine does not look like a stall (a stall verdict additionally requires the process to be alive and is accompanied by a goroutine dump)")
 }
 
@@ -990,4 +991,89 @@ func c13CraftedPayloads() []hostileInput {
 		}
 	}
 	return out
+}
+
+// c13InspectBlocked: clients parked in blocking commands are looked at, again and again, by introspection commands of
+// other connections (which read and briefly mark the state of every client): every one of those commands is answered,
+// other clients stay served, and the parked clients still end their blocks when asked to.
+func c13InspectBlocked(r *verdict.Run) {
+	c, err := startChild(false)
+	if err != nil {
+		r.Inconclusive("cannot start child")
+		return
+	}
+	defer c.Stop()
+	e, err := startEmu(c, "")
+	if err != nil {
+		r.Inconclusive("infra: " + err.Error())
+		return
+	}
+	blockers := [][]string{{"BLPOP", "ib-never", "0"}, {"BRPOP", "ib-never", "ib-never2", "0"}, {"BLMOVE", "ib-never", "ib-dst", "LEFT", "RIGHT", "0"}, {"BRPOPLPUSH", "ib-never", "ib-dst", "0"}, {"BLMPOP", "0", "1", "ib-never", "LEFT"}, {"BLPOP", "ib-never", "30"}}
+	var parked []*wire.Conn
+	var ids []int64
+	for _, b := range blockers {
+		cn, err := e.dial()
+		if err != nil {
+			return
+		}
+		defer cn.Close()
+		id, _ := cn.ClientID()
+		cn.SendCmd(b...)
+		parked = append(parked, cn)
+		ids = append(ids, id)
+	}
+	time.Sleep(100 * time.Millisecond)
+	insp, err := e.dial()
+	if err != nil {
+		return
+	}
+	defer insp.Close()
+	insp.Timeout = 4 * time.Second
+	other, err := e.dial()
+	if err != nil {
+		return
+	}
+	defer other.Close()
+	other.Timeout = 4 * time.Second
+	fail := func(sig, what string) {
+		dump := ""
+		if c.Alive() {
+			dump = stallSummary(c.SigQuitDump())
+		}
+		r.Report("c13/inspect-blocked/"+sig, what+"\n"+dump, nil)
+	}
+	for round := 0; round < 6; round++ {
+		for _, cmd := range [][]string{{"CLIENT", "LIST"}, {"CLIENT", "LIST", "ID", strconv.FormatInt(ids[round%len(ids)], 10)}, {"CLIENT", "INFO"}, {"CLIENT", "LIST", "TYPE", "normal"}} {
+			r.Eval(1)
+			v, err := insp.Do(cmd...)
+			if err != nil {
+				fail("introspection-unanswered", fmt.Sprintf("round %d: %s got no reply within 4 s while %d clients are parked in blocking commands: %v", round, cmdString(cmd), len(parked), err))
+				return
+			}
+			if cmd[len(cmd)-1] == "LIST" && strings.Count(v.Text(), "flags=b") != len(parked) {
+				r.Report("c13/inspect-blocked/blocked-flag", fmt.Sprintf("round %d: CLIENT LIST shows %d clients with the blocked flag, %d are parked", round, strings.Count(v.Text(), "flags=b"), len(parked)), nil)
+			}
+		}
+		if v, err := other.Do("INCR", "ib-counter"); err != nil || v.Int != int64(round+1) {
+			fail("bystander-unanswered", fmt.Sprintf("round %d: a bystander's INCR got %s %v", round, v, err))
+			return
+		}
+	}
+	// the parked clients still react: unblock them one by one
+	for i, cn := range parked {
+		v, err := insp.Do("CLIENT", "UNBLOCK", strconv.FormatInt(ids[i], 10))
+		if err != nil || v.Int != 1 {
+			fail("unblock-after-inspection", fmt.Sprintf("CLIENT UNBLOCK of a parked client that was listed several times: %s %v", v, err))
+			return
+		}
+		if rv, _, err := cn.ReadValue(4 * time.Second); err != nil || !rv.Null {
+			fail("parked-client-stuck-after-inspection", fmt.Sprintf("%s was unblocked (reply 1) after being listed several times, but its command did not end: %s %v", cmdString(blockers[i]), rv, err))
+			return
+		}
+		if rv, err := cn.Do("PING"); err != nil || rv.Text() != "PONG" {
+			fail("parked-client-stuck-after-inspection", fmt.Sprintf("after its block ended the connection answers PING with %s %v", rv, err))
+			return
+		}
+	}
+	r.Distinct("inspect-blocked")
 }
